@@ -706,6 +706,19 @@ pub fn run_batch(prop: &'static dyn Property, cfg: &BatchConfig) -> i32 {
         real.len(),
         known_hit.values().sum::<u64>(),
     );
+    // seam liveness: a batch that never went through the seams exercised
+    // something else than the claimed system and must not report "held"
+    let seams_dead = if prop.engine().starts_with("simworld") {
+        merged.log_events < 3 * merged.evaluations
+    } else {
+        merged.stats.get("seam.clock_reads").copied().unwrap_or(0) == 0
+    };
+    if seams_dead && merged.evaluations > 0 {
+        eprintln!("harness error: {id}: the code under test did not go through the simulation seams (events {}, runs {})", merged.log_events, merged.evaluations);
+        if exit == 0 {
+            exit = 2;
+        }
+    }
     if merged.evaluations == 0 || distinct < 2 {
         eprintln!("harness error: {id}: no (distinct non-trivial) runs were executed");
         if exit == 0 {
